@@ -24,7 +24,7 @@ RULE = {"C08": (
     "one evaluation = one seeded run: random network (6-14 tensors), swarm-chosen method subset / objective / "
     "post-processing set / optlib / max_repeats / max_time / pool (none, thread-like, process-like; 1-6 workers, "
     "seeded task durations, slow worker) / trial-fault rate and kind (exception, BadTrial) / clock faults, then 1-2 "
-    "consecutive search() calls on the real HyperOptimizer; invariants checked after each search and, for seeded "
+    "consecutive search() calls on the real HyperOptimizer (the same network may come in other container types on a later search); invariants checked after each search and, for seeded "
     "optlib=random without max_time, refinement against the serial fault-free run of the same configuration. "
     "distinct_nontrivial counts distinct (completion-order Lehmer code, fault placement bitmap, pool mode, "
     "post-processing set, objective) tuples among runs that executed at least 2 trials."
